@@ -349,12 +349,15 @@ func init() {
 		}
 		var cur atomic.Int64
 		var curStart atomic.Int64
+		var curCPU atomic.Int64
 		var mu sync.Mutex
 		// watchdog: a case that does not come back within 30 s under an op budget is a hang
 		go func() {
 			for {
 				time.Sleep(200 * time.Millisecond)
-				if st := curStart.Load(); st != 0 && time.Now().UnixMilli()-st > 30000 {
+				// a hang: 120 s of processor time on one case (the worker runs one case at a time, on two threads; the heaviest
+				// legitimate cases - 10^7 parse expressions, several times per observation sequence - need about 20 s), or 15 minutes by the clock
+				if st := curStart.Load(); st != 0 && (cpuMillis()-curCPU.Load() > 120000 || time.Now().UnixMilli()-st > 900000) {
 					mu.Lock()
 					i := int(cur.Load())
 					o := &c01Obs{Ev: "c01", Kind: *kind, Src: c01Short(srcs[i]), Hang: true, DetailStable: true, Steps: []c01Step{}, Count: 1}
@@ -392,6 +395,7 @@ func init() {
 				cfg.apply(vm)
 			}
 			o := &c01Obs{Ev: "c01", Kind: *kind, Src: src, Cfg: cfg, Reused: reused, Count: 1, MacroOffInHole: reMacroOffInHole.MatchString(src)}
+			curCPU.Store(cpuMillis())
 			curStart.Store(time.Now().UnixMilli())
 			c01Observe(vm, src, o)
 			curStart.Store(0)
@@ -446,7 +450,7 @@ func init() {
 					}
 					a = append(a, "-t3every", fmt.Sprint(*t3every))
 					cmd := exec.Command(self, a...)
-					cmd.Env = append(os.Environ(), "GOMEMLIMIT=3GiB")
+					cmd.Env = append(os.Environ(), "GOMEMLIMIT=3GiB", "GOMAXPROCS=2") // two threads: the collector cannot multiply the processor time of a case
 					outb, err := cmd.Output()
 					readND(o, func(line []byte) {
 						mu.Lock()
